@@ -141,7 +141,8 @@ def shrink_failure(part, binary, inp, work, kind, rounds=12):
 
 def write_replay(pid, seed, n, payload):
     os.makedirs(C.REPLAYS, exist_ok=True)
-    p = os.path.join(C.REPLAYS, "%s-%d-%d.json" % (pid, seed, n))
+    # runs against a scratch tree (VERIF_REPO) may be concurrent: their replay files must not collide
+    p = os.path.join(C.REPLAYS, "%s-%d-%d%s.json" % (pid, seed, n, "-p%d" % os.getpid() if C._ALT else ""))
     json.dump(payload, open(p, "w"), indent=1, default=str)
     return p
 
